@@ -219,8 +219,15 @@ func checkCanonical(run *core.Run, m *openfgav1.AuthorizationModel, r *rand.Rand
 func checkCanonical1(run *core.Run, m *openfgav1.AuthorizationModel, r *rand.Rand, repeats int) {
 	c := &core.Case{Kind: "model", Model: modelJSON(m)}
 	clone := func() *openfgav1.AuthorizationModel { return proto.Clone(m).(*openfgav1.AuthorizationModel) }
-	plain, err := transformer.TransformJSONProtoToDSL(clone())
-	run.Eval(1)
+	first := clone()
+	plain, err := transformer.TransformJSONProtoToDSL(first)
+	// the very same object once more: verdict and bytes must repeat (the other repeats below use fresh copies)
+	again, err2 := transformer.TransformJSONProtoToDSL(first)
+	run.Eval(2)
+	if (err == nil) != (err2 == nil) || plain != again {
+		run.Violation("output-differs-between-calls-on-one-object", c, fmt.Sprint(plain, err), fmt.Sprint(again, err2))
+		return
+	}
 	if err != nil {
 		run.Count("models_not_renderable", 1)
 		return
@@ -275,12 +282,12 @@ func checkCanonical1(run *core.Run, m *openfgav1.AuthorizationModel, r *rand.Ran
 		run.Count("modular_models", 1)
 		// 3a. repeated calls that overlap: goroutines render one fresh copy at the same moment (first thing done
 		// with that copy), every output must be the sequential one
-		if len(m.GetTypeDefinitions()) >= 3 && r.Intn(3) == 0 {
+		if len(m.GetTypeDefinitions()) >= 3 {
 			shared := clone()
 			r.Shuffle(len(shared.TypeDefinitions), func(a, b int) {
 				shared.TypeDefinitions[a], shared.TypeDefinitions[b] = shared.TypeDefinitions[b], shared.TypeDefinitions[a]
 			})
-			const G = 6
+			const G = 8
 			outs := make([]string, G)
 			var start, done sync.WaitGroup
 			start.Add(1)
